@@ -160,6 +160,81 @@ def inlinable(fn: ast.AST) -> Optional[str]:
     return None
 
 
+def _has_return(node) -> bool:
+    for n in ast.walk(node):
+        if isinstance(n, ast.Return):
+            return True
+    return False
+
+
+def _always_returns(block) -> bool:
+    if not block:
+        return False
+    last = block[-1]
+    if isinstance(last, ast.Return):
+        return True
+    if isinstance(last, ast.If):
+        return _always_returns(last.body) and _always_returns(last.orelse)
+    return False
+
+
+def tailify(block):
+    """Rewrite a statement list so that every `return` is in tail position (guard clauses become if/else with the
+    remaining statements moved into the non-returning arms).  None if a return sits inside a loop/try/with."""
+    out = []
+    for i, st in enumerate(block):
+        if isinstance(st, ast.Return):
+            out.append(st)
+            return out
+        if isinstance(st, ast.If):
+            if not _has_return(st):
+                out.append(st)
+                continue
+            body_t, else_t = tailify(st.body), tailify(st.orelse)
+            rest_t = tailify(block[i + 1:])
+            if body_t is None or else_t is None or rest_t is None:
+                return None
+            b_ret, e_ret = _always_returns(body_t), _always_returns(else_t)
+            new = ast.If(test=st.test, body=body_t if b_ret else body_t + clone(rest_t), orelse=else_t if e_ret else else_t + clone(rest_t))
+            ast.copy_location(new, st)
+            if not new.body:
+                new.body = [ast.Pass()]
+            out.append(new)
+            return out
+        if isinstance(st, (ast.For, ast.AsyncFor, ast.While, ast.Try, ast.With, ast.AsyncWith)) and _has_return(st):
+            return None
+        if isinstance(st, (ast.FunctionDef, ast.AsyncFunctionDef, ast.ClassDef)):
+            out.append(st)
+            continue
+        out.append(st)
+    return out
+
+
+def inlinable_multi(fn: ast.AST) -> Optional[str]:
+    """Like inlinable(), for callees with several returns: possible when every return can be brought to tail position."""
+    if not isinstance(fn, ast.FunctionDef):
+        return "not a plain def"
+    for d in fn.decorator_list:
+        if not (isinstance(d, ast.Name) and d.id in ("staticmethod", "classmethod")):
+            return "decorated"
+    a = fn.args
+    if a.vararg or a.kwarg:
+        return "varargs"
+    if _is_generator(fn):
+        return "generator"
+    for n in _own_nodes(fn):
+        if isinstance(n, (ast.Global, ast.Nonlocal)):
+            return "global/nonlocal"
+        if isinstance(n, ast.Call) and isinstance(n.func, ast.Name) and n.func.id == fn.name:
+            return "recursive"
+    for n in ast.walk(fn):
+        if isinstance(n, (ast.FunctionDef, ast.AsyncFunctionDef, ast.Lambda)) and n is not fn and _has_return(n) and isinstance(n, ast.Lambda) is False:
+            return "nested def with return"
+    if tailify(_body_without_doc(fn)) is None:
+        return "return inside a loop/try/with"
+    return None
+
+
 class _Subst(ast.NodeTransformer):
     def __init__(self, mapping: Dict[str, ast.AST]):
         self.mapping = mapping
@@ -220,7 +295,7 @@ class Inliner:
         self._tmp = 0
 
     # ------------------------------------------------------------ resolution
-    def _callee(self, fi, call: ast.Call):
+    def _callee(self, fi, call: ast.Call, multi: bool = False):
         """(FunctionInfo, receiver_expr_or_None, drop_first) for a call that resolves to a NEW repository function."""
         f = call.func
         prog = self.prog
@@ -265,7 +340,7 @@ class Inliner:
                             target = None
         if target is None or target.qualname in self.known or target is fi:
             return None
-        if inlinable(target.node) is not None:
+        if inlinable(target.node) is not None and not (multi and inlinable_multi(target.node) is None):
             return None
         return target, recv, drop
 
@@ -306,6 +381,53 @@ class Inliner:
         self.log.append((fi.qualname, target.qualname))
         return pre + body, ret_expr
 
+    def _expand_multi(self, fi, call: ast.Call, sink) -> Optional[List[ast.stmt]]:
+        """Inline a callee with several returns at a statement-level call: every `return e` becomes sink(e)."""
+        r = self._callee(fi, call, multi=True)
+        if r is None:
+            return None
+        target, recv, drop = r
+        fn = target.node
+        if inlinable(fn) is None:
+            return None  # the single-return path handles it
+        binding = _bind(fn, call, drop)
+        if binding is None:
+            return None
+        if drop:
+            first = (fn.args.posonlyargs + fn.args.args)[0].arg
+            binding[first] = recv
+        rebound = _assigned_names(fn)
+        pre: List[ast.stmt] = []
+        mapping: Dict[str, ast.AST] = {}
+        for p, v in binding.items():
+            if p in rebound:
+                pre.append(ast.Assign(targets=[ast.Name(id=p, ctx=ast.Store())], value=clone(v), lineno=call.lineno, col_offset=0))
+            else:
+                mapping[p] = v
+        body = tailify([clone(s) for s in _body_without_doc(fn)])
+        if body is None:
+            return None
+        if not _always_returns(body):
+            body = body + [ast.Return(value=None)]
+            body = tailify(body) or body
+        sub = _Subst(mapping)
+        body = [sub.visit(s) for s in body]
+
+        class R(ast.NodeTransformer):
+            def visit_Return(self, node):
+                new = sink(node.value if node.value is not None else ast.Constant(value=None))
+                return ast.copy_location(new, node) if new is not None else ast.copy_location(ast.Pass(), node)
+
+            def visit_FunctionDef(self, node):
+                return node
+
+            visit_Lambda = visit_AsyncFunctionDef = visit_FunctionDef
+
+        body = [R().visit(s) for s in body]
+        self.count += 1
+        self.log.append((fi.qualname, target.qualname))
+        return pre + body
+
     def _process_block(self, fi, stmts: List[ast.stmt]) -> List[ast.stmt]:
         out: List[ast.stmt] = []
         for st in stmts:
@@ -318,6 +440,23 @@ class Inliner:
                     h.body = self._process_block(fi, h.body)
             if isinstance(st, (ast.FunctionDef, ast.AsyncFunctionDef, ast.ClassDef)):
                 out.append(st)
+                continue
+            # statement-level call of a helper with several returns
+            multi = None
+            if isinstance(st, (ast.Assign, ast.AnnAssign, ast.Return, ast.Expr)) and isinstance(getattr(st, "value", None), ast.Call):
+                if isinstance(st, ast.Assign):
+                    tg = st.targets
+                    multi = self._expand_multi(fi, st.value, lambda e, tg=tg: ast.Assign(targets=[clone(t) for t in tg], value=e))
+                elif isinstance(st, ast.AnnAssign):
+                    multi = self._expand_multi(fi, st.value, lambda e, st=st: ast.Assign(targets=[clone(st.target)], value=e))
+                elif isinstance(st, ast.Return):
+                    multi = self._expand_multi(fi, st.value, lambda e: ast.Return(value=e))
+                else:
+                    multi = self._expand_multi(fi, st.value, lambda e: ast.Expr(value=e) if not isinstance(e, (ast.Constant, ast.Name)) else None)
+            if multi is not None:
+                host = st.lineno
+                _renumber(multi, host + 1 if not isinstance(host, _Line) else host, int(host) if not isinstance(host, _Line) else host.shown)
+                out.extend(multi)
                 continue
             hoisted: List[ast.stmt] = []
             # expressions evaluated once, before the statement's own blocks
